@@ -238,6 +238,9 @@ def marks_from_choices(w, o):
             cells = [c for c in act if all(abs(a - b) <= r for a, b in zip(c, c0))]
         marks[l] = sorted(set(cells))
         kinds[l] = o.pick(['set', 'list', 'tuple'])
+        if pat == 'all' and o.chance(50):
+            # "refine this whole level": the caller hands the space's OWN set hs.active_cells(l) back to refine()
+            kinds[l] = 'live'
     return marks, kinds
 
 
@@ -344,6 +347,12 @@ def do_refine(w, marks, kinds, via='refine', region=None, mark_truncate=False):
     before_active = {l: set(m.active_cells(l)) for l in range(m.L + 1)}
     levels_before = m.L
     arg = containerise(marks, kinds)
+    for l in list(arg):
+        if kinds.get(l) == 'live':
+            live = ctx.call('active_cells', hs.active_cells, l)
+            if live is not RAISED() and isinstance(live, (set, frozenset, list, tuple)) and set(live) == set(marks[l]):
+                arg[l] = live
+                ctx.count('op.refine.marks-are-the-live-active-set')
     if via == 'refine':
         w.requests.append(('refine', containerise(marks, kinds), mark_truncate))
         if mark_truncate:
